@@ -465,3 +465,96 @@ def rule_depth_budget_shared(ctx, rep, rid: str) -> None:
                     rep.ok(rid, f"{m.qual}:{norm(t)}:in-place")
     if adopted and not source_is_innermost and not init_ok:
         rep.bad(rid, f"{vmcls.name}.__init__:{attr}:cell", f"self.{attr} is adopted by nested interpreters but is not created as a mutable cell in __init__", gf.loc)
+
+
+# ---- host wrappers around script-supplied callables cannot be stacked without being counted ------------
+def rule_host_wrappers_counted(ctx, rep, rid: str) -> None:
+    """A native that the script can hold as a value and that calls a host callable it CAPTURED when it was made
+    (fn.call / fn.apply / fn.bind wrappers) can be wrapped in itself any number of times by the script
+    (g = g.call in a loop); calling the result nests one host frame per level.  Each such call is either made
+    under the host-depth budget, or the wrapper provably never wraps its own kind (bind flattens)."""
+    rep.rule(rid, "a script-obtainable host function that calls a callable captured at its creation does so under the host-depth budget, and a callable host object that forwards to a stored target is never constructed around an object of its own class (stacked wrappers cannot overflow the host stack)", floor=2)
+    cg = ctx.cg
+    sr = ctx.facts.script_reachable()
+    natives = {i: v[0] for i, v in cg.natives.items()}
+    n_obl = 0
+    for w in natives.values():
+        if isinstance(w.node, ast.Lambda) or id(w) not in sr:
+            continue
+        # dynamic calls in w and in the local closures it calls (one level)
+        group = [w] + [t for cs in cg.sites_of.get(id(w), []) if cs.kind == "resolved" for t in cs.targets if t.parent is not None and t.parent is w.parent and t is not w]
+        for g in group:
+            own_names = set(g.params())
+            for n in g.own_nodes():
+                if isinstance(n, ast.Name) and isinstance(n.ctx, ast.Store):
+                    own_names.add(n.id)
+            for cs in cg.sites_of.get(id(g), []):
+                if cs.kind != "dynamic":
+                    continue
+                fn = cs.call.func
+                if isinstance(fn, ast.Name) and fn.id not in own_names:
+                    # a captured callable
+                    n_obl += 1
+                    key = f"{w.qual}:{fn.id}(..)" + ("" if g is w else f":via {g.name}")
+                    guard = _has_depth_guard(g, ctx)
+                    if guard:
+                        rep.ok(rid, key, {"guard": guard})
+                    else:
+                        rep.bad(rid, key, f"{w.qual} is a function value scripts can hold, and it calls the captured callable `{fn.id}` ({short(cs.call, 40)}) outside the host-depth budget: wrapping the wrapper in a loop (g = g.{w.name.replace('_fn', '')}) and calling the result overflows the host stack (RecursionError instead of MemoryLimitError)", f"{g.module.rel}:{cs.line}")
+                elif isinstance(fn, ast.Attribute) and norm(fn.value) == "self" and w.name == "__call__" and w.cls is not None:
+                    # a callable object forwarding to a stored target: never built around its own class
+                    n_obl += 1
+                    key = f"{w.qual}:self.{fn.attr}(..)"
+                    if _has_depth_guard(g, ctx):
+                        rep.ok(rid, key, {"guard": "host-depth budget"})
+                        continue
+                    bad = _constructed_around_itself(ctx, w.cls, fn.attr)
+                    if bad is None:
+                        rep.ok(rid, key, {"flat": f"every {w.cls.name}(..) gets a target that is not a {w.cls.name}"})
+                    elif bad == "open":
+                        rep.ok(rid, key, {"note": "targets come from the embedder or a fixed table, not from script-held values"})
+                    else:
+                        rep.bad(rid, key, f"{w.cls.name} objects forward calls to self.{fn.attr} outside the host-depth budget, and {bad}: a chain of them built by the script nests one host frame per link", w.loc)
+    if n_obl == 0:
+        raise AnalysisError("no host wrapper around a captured callable found (call/apply/bind helpers vanished?)")
+
+
+def _constructed_around_itself(ctx, ci, slot: str) -> Optional[str]:
+    """None when every construction of class ci passes, for the constructor parameter stored in `slot`, a value that
+    cannot be a ci instance: the slot of an existing instance (flattening), or a name excluded by an earlier
+    `if isinstance(name, ci): return ...`.  "open" when no construction site takes a script-held value."""
+    init = ctx.tree.find_method(ci, "__init__")
+    if init is None:
+        return f"{ci.name} has no constructor to inspect"
+    pname = None
+    for n in init.own_nodes():
+        if isinstance(n, ast.Assign) and isinstance(n.value, ast.Name) and any(isinstance(t, ast.Attribute) and t.attr == slot and norm(t.value) == "self" for t in n.targets):
+            pname = n.value.id
+    if pname is None:
+        return f"{ci.name}.__init__ does not store a parameter in self.{slot}"
+    params = [p for p in init.params() if p != "self"]
+    idx = params.index(pname)
+    sr = ctx.facts.script_reachable()
+    n_sites = 0
+    for f in ctx.tree.funcs:
+        for n in f.own_nodes():
+            if not (isinstance(n, ast.Call) and isinstance(n.func, ast.Name) and ctx.cg._class_visible(n.func.id, f) is ci):
+                continue
+            arg = n.args[idx] if idx < len(n.args) else next((k.value for k in n.keywords if k.arg == pname), None)
+            if arg is None:
+                continue
+            if id(f) not in sr:
+                continue
+            n_sites += 1
+            if isinstance(arg, ast.Attribute) and arg.attr == slot:
+                continue  # the target of an existing instance: by induction not an instance itself
+            if isinstance(arg, ast.Name):
+                # excluded by an earlier `if isinstance(arg, ci): return` in the same block chain
+                excluded = False
+                for m in f.own_nodes():
+                    if isinstance(m, ast.If) and m.lineno < n.lineno and norm(m.test) == f"isinstance({arg.id}, {ci.name})" and m.body and isinstance(m.body[-1], (ast.Return, ast.Raise)):
+                        excluded = True
+                if excluded:
+                    continue
+            return f"{f.qual} constructs one around {short(arg, 30)} (line {n.lineno}), which may itself be a {ci.name}"
+    return None if n_sites else "open"
